@@ -34,6 +34,33 @@ typedef typeid typename union unsigned using virtual void volatile wchar_t while
 ALPHABET = set("abcdefghijklmnopqrstuvwxyzABCDEFGHIJKLMNOPQRSTUVWXYZ0123456789_")
 
 
+
+def _unit(px, g):
+    """A method whose body only prepares locals and returns self._helper(...) delegates its logic: analyse the helper.
+    Returns (function to analyse, {parameter of g -> parameter of the helper}, {helper parameter -> argument text})."""
+    body = [st for st in g.node.body if not (isinstance(st, ast.Expr) and isinstance(st.value, ast.Constant))]
+    if not body or not all(isinstance(st, (ast.Assign, ast.AnnAssign)) for st in body[:-1]):
+        return g, {a.arg: a.arg for a in g.node.args.args}, {}
+    last = body[-1]
+    c = last.value if isinstance(last, ast.Return) else None
+    if not (isinstance(c, ast.Call) and isinstance(c.func, ast.Attribute) and isinstance(c.func.value, ast.Name) and c.func.value.id == "self"
+            and g.cls is not None and c.func.attr in g.cls.methods and c.func.attr.startswith("_") and c.func.attr != g.node.name):
+        return g, {a.arg: a.arg for a in g.node.args.args}, {}
+    h = g.cls.methods[c.func.attr]
+    hp = [a.arg for a in h.node.args.args][1:]
+    own = {a.arg for a in g.node.args.args}
+    pmap, amap = {"self": "self"}, {}
+    bound = list(zip(hp, c.args)) + [(k.arg, k.value) for k in c.keywords if k.arg]
+    for name, a in bound:
+        amap[name] = ast.unparse(pyfront.subst_locals(g.node, a))
+        if isinstance(a, ast.Name) and a.id in own:
+            pmap[a.id] = name
+    return h, pmap, amap
+
+
+def _param(g, idx):
+    return g.node.args.args[idx].arg if len(g.node.args.args) > idx else None
+
 # ---------------------------------------------------------------------------------------------------------------
 def rule_recheck(ctx, px):
     R = "R-C09-RECHECK"
@@ -47,26 +74,73 @@ def rule_recheck(ctx, px):
     rets = [r for r in ast.walk(f.node) if isinstance(r, ast.Return)]
     if not rets:
         raise AnalysisError("anchor missing: return of TokenEncoder.strop")
+    TRANSFORMS = (("_strop_by_pattern", "reserved pattern"), ("_strop_by_keyword", "reserved identifier"), ("_encode", "encoding stability"))
+
+    def direct_site(t: ast.Try):
+        """try: self._do_for_type_and_all(self.<T>, <subject>, <type>, True) except RuntimeError: raise | subject = handler(..)"""
+        for c in ast.walk(ast.Module(body=t.body, type_ignores=[])):
+            if isinstance(c, ast.Call) and ast.unparse(c.func) == "self._do_for_type_and_all" and len(c.args) == 4 and ast.unparse(c.args[3]) == "True":
+                hs = t.handlers
+                ok_h = len(hs) == 1 and any(isinstance(x, ast.Raise) for x in ast.walk(hs[0])) and any(
+                    isinstance(x, (ast.Assign, ast.Return)) for x in ast.walk(hs[0]))
+                repl = [ast.unparse(x.targets[0]) for x in ast.walk(hs[0]) if isinstance(x, ast.Assign)] if hs else []
+                return ast.unparse(c.args[0]).split(".")[-1], ast.unparse(c.args[1]), ok_h, repl
+        return None
+
+    def helper_site(call: ast.Call):
+        """self._h(self.<T>, <subject>, ...) where _h verifies its first callable parameter in a dry run and hands a failure to the
+        handler parameter (raising when there is none) - the verification blocks factored into a private helper"""
+        if not (isinstance(call.func, ast.Attribute) and isinstance(call.func.value, ast.Name) and call.func.value.id == "self" and f.cls is not None
+                and call.func.attr in f.cls.methods and call.func.attr.startswith("_")):
+            return None
+        h = f.cls.methods[call.func.attr]
+        hp = [a.arg for a in h.node.args.args if a.arg != "self"]
+        for t in [n for n in ast.walk(h.node) if isinstance(n, ast.Try)]:
+            ds = direct_site(t)
+            if ds is None:
+                continue
+            # ds[0] is a *parameter* of the helper here
+            tpar, spar, ok_h, _repl = ds
+            if tpar not in hp or spar not in hp:
+                continue
+            ti, si = hp.index(tpar), hp.index(spar)
+            if ti >= len(call.args) or si >= len(call.args):
+                continue
+            # the helper returns the (possibly replaced) subject
+            rets_h = [ast.unparse(r.value) for r in ast.walk(h.node) if isinstance(r, ast.Return) and r.value is not None]
+            ok_ret = spar in rets_h
+            return ast.unparse(call.args[ti]).split(".")[-1], ast.unparse(call.args[si]), ok_h and ok_ret, ["<return>"]
+        return None
+
     for r in rets:
         dom = pyfront.dominating_stmts(f.node, r) or []
-        tries = [d for d in dom if isinstance(d, ast.Try)]
         found = {}
-        for t in tries:
-            for c in ast.walk(ast.Module(body=t.body, type_ignores=[])):
-                if isinstance(c, ast.Call) and ast.unparse(c.func) == "self._do_for_type_and_all" and len(c.args) == 4 \
-                        and ast.unparse(c.args[3]) == "True":
-                    what = ast.unparse(c.args[0])
-                    # handler shape: `if handler is None: raise` ... `stropped = handler(...)`
-                    hs = t.handlers
-                    ok_h = len(hs) == 1 and any(isinstance(x, ast.Raise) for x in ast.walk(hs[0])) and any(
-                        isinstance(x, ast.Assign) and ast.unparse(x.targets[0]) == ast.unparse(r.value) for x in ast.walk(hs[0]))
-                    subject = ast.unparse(c.args[1])
-                    found[what] = (ok_h, subject, t.lineno)
-        for what, label in (("self._strop_by_pattern", "reserved pattern"), ("self._strop_by_keyword", "reserved identifier"),
-                            ("self._encode", "encoding stability")):
+        for d in list(dom) + [r]:
+            if isinstance(d, ast.Try):
+                ds = direct_site(d)
+                if ds is not None:
+                    found[ds[0]] = (ds[2], ds[1], ds[3], d.lineno)
+            calls_here = []
+            if isinstance(d, ast.Assign) and isinstance(d.value, ast.Call):
+                calls_here = [(d.value, [ast.unparse(t) for t in d.targets])]
+            elif isinstance(d, ast.Return) and isinstance(d.value, ast.Call):
+                calls_here = [(d.value, ["<return>"])]
+            for c, tgts in calls_here:
+                hsite = helper_site(c)
+                if hsite is not None:
+                    found[hsite[0]] = (hsite[2], hsite[1], tgts, d.lineno)
+        # the verified token is the one that is returned: each site checks the variable that the return hands out (or is the return)
+        retvar = ast.unparse(r.value) if isinstance(r.value, ast.Name) else None
+        for what, label in TRANSFORMS:
             info = found.get(what)
-            ok = info is not None and info[0] and info[1] == ast.unparse(r.value)
-            ctx.ob(R, f.module.rel, f"{f.short} :: dry-run {label} check dominates `return {ast.unparse(r.value)}`", ok,
+            ok = info is not None and info[0]
+            if ok:
+                subj, repl = info[1], info[2]
+                ok = (retvar is not None and subj == retvar) or (retvar is None and "<return>" in [x for i_ in found.values() for x in i_[2]])
+                # a site that replaces the token must write it back to the verified variable (or be the return itself)
+                ok = ok and all(x in (subj, "<return>") for x in repl)
+            shown = ast.unparse(r.value)
+            ctx.ob(R, f.module.rel, f"{f.short} :: dry-run {label} check dominates `return {shown[:60]}`", ok,
                    "" if ok else ("check missing on the path to the return: a reserved or unstable token can be returned" if info is None
                                   else "failure is swallowed or the check is applied to another variable"), r.lineno)
     # 'all' is refused
@@ -78,19 +152,51 @@ def rule_recheck(ctx, px):
     ctx.ob(R, f.module.rel, f"{f.short} :: token type 'all' is refused", ok, "", f.node.lineno)
     # dry-run branches raise
     for name in ("_strop_by_keyword", "_strop_by_pattern", "_encode"):
-        g = px.func(COMMON, f"TokenEncoder.{name}")
+        g0 = px.func(COMMON, f"TokenEncoder.{name}")
+        g, pmap, _amap = _unit(px, g0)
+        dp = pmap.get(_param(g0, 3) or "dry_run")
         dry_raises = []
         for st, gd in pyfront.walk_guarded(g.node.body):
             if isinstance(st, ast.Raise):
                 dry_raises.append(pyfront.guard_terms(gd))
-        ok = any(("dry_run", False) not in t and (("dry_run", True) in t or ("not dry_run", False) in t or any(e == "dry_run" and p for e, p in t)
-                                                   or any(e == "not dry_run" and not p for e, p in t)) for t in dry_raises)
-        ctx.ob(R, g.module.rel, f"{g.short} :: a match in dry-run mode raises", ok, f"raise guards: {dry_raises}", g.node.lineno)
+        ok = dp is not None and any((dp, False) not in t and (f"not {dp}", True) not in t and ((dp, True) in t or (f"not {dp}", False) in t) for t in dry_raises)
+        ctx.ob(R, g0.module.rel, f"{g0.short} :: a match in dry-run mode raises", ok, f"analysed {g.short}; raise guards: {dry_raises}", g0.node.lineno)
     # _do_for_type_and_all applies the transform for 'all' and for the type
     d = px.func(COMMON, "TokenEncoder._do_for_type_and_all")
-    calls = [c for c in ast.walk(d.node) if isinstance(c, ast.Call) and isinstance(c.func, ast.Name) and c.func.id == "transform"]
-    args = [ast.unparse(c.args[1]) for c in calls if len(c.args) >= 2]
-    ok = sorted(args) == ["'all'", "token_type"]
+    tparam, typ = _param(d, 1) or "transform", _param(d, 3) or "token_type"
+    calls = [c for c in ast.walk(d.node) if isinstance(c, ast.Call) and isinstance(c.func, ast.Name) and c.func.id == tparam]
+    args = []
+    pm = pyfront.parent_map(d.node)
+    for c in calls:
+        if len(c.args) < 2:
+            continue
+        a = c.args[1]
+        # loop form: `for t in ("all", token_type): transform(x, t, dry_run)` - the tuple's elements are the applied types
+        loop = None
+        cur = c
+        while id(cur) in pm:
+            cur = pm[id(cur)]
+            if isinstance(cur, ast.For) and isinstance(cur.target, ast.Name) and isinstance(a, ast.Name) and cur.target.id == a.id:
+                loop = cur
+                break
+        if loop is not None:
+            it = pyfront.subst_locals(d.node, loop.iter)
+            alts = [it.body, it.orelse] if isinstance(it, ast.IfExp) else [it]
+            per = []
+            for alt in alts:
+                if isinstance(alt, (ast.Tuple, ast.List)):
+                    per.append([ast.unparse(e) for e in alt.elts])
+                else:
+                    per.append(["?"])
+            # every alternative starts with 'all'; the longest one also applies the token type; a shorter alternative is
+            # only taken when the type *is* 'all' (checked by the conditional's test)
+            full = max(per, key=len)
+            okalt = all(x and x[0] == "'all'" for x in per) and all(x == full or (x == ["'all'"] and isinstance(it, ast.IfExp) and "'all'" in ast.unparse(it.test)
+                                                                    and typ in ast.unparse(it.test)) for x in per)
+            args.extend(full if okalt else ["?"])
+        else:
+            args.append(ast.unparse(a))
+    ok = sorted(args) == sorted(["'all'", typ])
     ctx.ob(R, d.module.rel, f"{d.short} :: rules of 'all' and of the token type are both applied", ok, f"{args}", d.node.lineno)
 
 
@@ -102,32 +208,103 @@ def rule_identity(ctx, px):
         "callback of pattern.sub), so an already valid, unreserved identifier is returned unchanged",
     )
     for name in ("_strop_by_keyword", "_strop_by_pattern"):
-        g = px.func(COMMON, f"TokenEncoder.{name}")
-        rets = [ast.unparse(r.value) for r in ast.walk(g.node) if isinstance(r, ast.Return)]
-        var = rets[0] if rets else None
-        stores = []
+        g0 = px.func(COMMON, f"TokenEncoder.{name}")
+        g, pmap, _amap = _unit(px, g0)
+        tok = pmap.get(_param(g0, 1) or "token")
+        # aliases of the token parameter: locals assigned the bare parameter
+        alias = {tok}
+        for n in ast.walk(g.node):
+            if isinstance(n, ast.Assign) and isinstance(n.value, ast.Name) and n.value.id in alias:
+                alias.update(t.id for t in n.targets if isinstance(t, ast.Name))
+        retvars = {ast.unparse(r.value) for r in ast.walk(g.node) if isinstance(r, ast.Return) and isinstance(r.value, ast.Name)}
+        stores = []   # (new value, guard terms, variable that carries the token there)
         for st, gd in pyfront.walk_guarded(g.node.body):
-            if isinstance(st, ast.Assign) and ast.unparse(st.targets[0]) == var and ast.unparse(st.value) != g.node.args.args[1].arg:
-                stores.append((ast.unparse(st.value), pyfront.guard_terms(gd)))
-        ok = bool(stores) and all(any(e.startswith("self._matches(") and p for e, p in t) for _, t in stores)
-        ctx.ob(R, g.module.rel, f"{g.short} :: token modified only under _matches(...)", ok, f"{stores}", g.node.lineno)
-        ok = all(v == f"self._stropping_prefix + {var} + self._stropping_suffix" for v, _ in stores)
-        ctx.ob(R, g.module.rel, f"{g.short} :: modification is prefix + token + suffix", ok, f"{[v for v, _ in stores]}", g.node.lineno)
+            if isinstance(st, ast.Assign) and ast.unparse(st.targets[0]) in retvars and not (isinstance(st.value, ast.Name) and st.value.id in alias):
+                stores.append((ast.unparse(st.value), pyfront.guard_terms(gd), ast.unparse(st.targets[0])))
+            elif isinstance(st, ast.Return) and st.value is not None and not isinstance(st.value, ast.Name):
+                stores.append((ast.unparse(st.value), pyfront.guard_terms(gd), None))
+        ok = bool(stores) and all(any(e.startswith("self._matches(") and p for e, p in t) for _, t, _v in stores)
+        ctx.ob(R, g0.module.rel, f"{g0.short} :: token modified only under _matches(...)", ok, f"analysed {g.short}: {stores}", g0.node.lineno)
+        ok = all(any(v == f"self._stropping_prefix + {a} + self._stropping_suffix" for a in (alias | ({var} if var else set()))) for v, _, var in stores)
+        ctx.ob(R, g0.module.rel, f"{g0.short} :: modification is prefix + token + suffix", ok, f"{[v for v, _, _x in stores]}", g0.node.lineno)
     e = px.func(COMMON, "TokenEncoder._encode")
     subs = [c for c in ast.walk(e.node) if isinstance(c, ast.Call) and isinstance(c.func, ast.Attribute) and c.func.attr == "sub"]
     ok = len(subs) == 1 and ast.unparse(subs[0].args[0]) == "self._encoding_filter"
     ctx.ob(R, e.module.rel, f"{e.short} :: characters change only inside pattern.sub(self._encoding_filter, ...)", ok, "", e.node.lineno)
+    # the returned variable is written only with the token itself or the result of that substitution: no normalisation
+    # (strip / split / join / lower ...) outside the match callback, which could empty or alter a valid identifier
+    tokp = _param(e, 1) or "token"
+    retvars = {ast.unparse(r.value) for r in ast.walk(e.node) if isinstance(r, ast.Return) and r.value is not None}
+    other = []
+    carriers = set(retvars) | {tokp}
+    for n in ast.walk(e.node):
+        tg = n.targets if isinstance(n, ast.Assign) else ([n.target] if isinstance(n, (ast.AugAssign, ast.AnnAssign)) and getattr(n, "value", None) is not None else [])
+        for t in tg:
+            if ast.unparse(t) in carriers:
+                v = n.value
+                is_tok = isinstance(v, ast.Name) and v.id in carriers
+                is_sub = v in subs and len(v.args) == 2 and ast.unparse(v.args[1]) in carriers
+                if isinstance(n, ast.AugAssign) or not (is_tok or is_sub):
+                    other.append(f"{ast.unparse(t)} = {ast.unparse(v)[:60]}")
+    bad_ret = [rv for rv in retvars if not rv.isidentifier()]
+    ok = not other and not bad_ret
+    ctx.ob(R, e.module.rel, f"{e.short} :: the encoded token is written only by the token parameter or by pattern.sub(self._encoding_filter, token)", ok,
+           "" if ok else f"token rewritten outside the match callback: {other + bad_ret}", e.node.lineno)
+    # the callback never returns the empty string for a (non-empty) match: a non-empty token stays non-empty
+    ef = px.func(COMMON, "TokenEncoder._encoding_filter")
+    mp = _param(ef, 1) or "m"
+    span_exprs = {f"{mp}.group(0)", f"{mp}.group()", f"{mp}[0]", f"{mp}.string[{mp}.start():{mp}.end()]"}
+    spans = set()
+    for n in ast.walk(ef.node):
+        if isinstance(n, ast.Assign) and ast.unparse(n.value).replace(" ", "") in {x.replace(" ", "") for x in span_exprs}:
+            spans.update(t.id for t in n.targets if isinstance(t, ast.Name))
+
+    def is_span(x):
+        return (isinstance(x, ast.Name) and x.id in spans) or ast.unparse(x).replace(" ", "") in {y.replace(" ", "") for y in span_exprs}
+
+    def nonempty(v, terms):
+        u = ast.unparse(v)
+        if isinstance(v, ast.Call) and u.startswith("self.encode_character("):
+            return True
+        if isinstance(v, ast.Attribute) and u == "self._whitespace_encoding_char":
+            # configured character (non-empty: R-C09-CONFIG) and not None on this path
+            return (f"{u} is not None", True) in terms or (f"{u} is None", False) in terms
+        if isinstance(v, ast.Call) and isinstance(v.func, ast.Attribute) and v.func.attr == "join" and isinstance(v.func.value, ast.Constant) and len(v.args) == 1:
+            a = v.args[0]
+            if isinstance(a, ast.Call) and isinstance(a.func, ast.Name) and a.func.id == "map" and len(a.args) == 2 and ast.unparse(a.args[0]) == "self.encode_character" and is_span(a.args[1]):
+                return True
+            if isinstance(a, (ast.GeneratorExp, ast.ListComp)) and len(a.generators) == 1 and not a.generators[0].ifs and is_span(a.generators[0].iter) \
+                    and ast.unparse(a.elt) == f"self.encode_character({ast.unparse(a.generators[0].target)})":
+                return True
+        if isinstance(v, ast.IfExp):
+            return nonempty(v.body, terms + pyfront.guard_terms([(v.test, True)])) and nonempty(v.orelse, terms + pyfront.guard_terms([(v.test, False)]))
+        return False
+
+    n_ret = 0
+    for st, gd in pyfront.walk_guarded(ef.node.body):
+        if isinstance(st, ast.Return):
+            n_ret += 1
+            ok = st.value is not None and nonempty(pyfront.subst_locals(ef.node, st.value) if not is_span(st.value) else st.value, pyfront.guard_terms(gd))
+            ctx.ob(R, ef.module.rel, f"{ef.short} :: `return {ast.unparse(st.value)[:50] if st.value else ''}` is a non-empty encoding of the match", ok,
+                   "" if ok else "the callback can return an empty or unencoded replacement: a non-empty token can become empty or keep illegal characters", st.lineno)
+    if not n_ret:
+        raise AnalysisError("anchor missing: return of TokenEncoder._encoding_filter")
     m = px.func(COMMON, "TokenEncoder._matches")
     inp = m.node.args.args[1].arg
-    loops = [n for n in ast.walk(m.node) if isinstance(n, ast.For) and isinstance(n.target, ast.Name)]
-    ok = False
-    if loops:
-        lv = loops[0].target.id
-        eq = any(isinstance(c, ast.Compare) and len(c.ops) == 1 and isinstance(c.ops[0], ast.Eq) and {ast.unparse(c.left), ast.unparse(c.comparators[0])} == {lv, inp}
-                 for c in ast.walk(loops[0]))
-        mt = any(isinstance(c, ast.Call) and isinstance(c.func, ast.Attribute) and c.func.attr in ("match", "fullmatch") and ast.unparse(c.func.value) == lv
-                 and [ast.unparse(a) for a in c.args] == [inp] for c in ast.walk(loops[0]))
-        ok = eq and mt
+    # the element variable: a for-loop target, a comprehension target, or the parameter of a nested predicate that any()/the loop applies
+    elems = {n.target.id for n in ast.walk(m.node) if isinstance(n, (ast.For, ast.comprehension)) and isinstance(n.target, ast.Name)}
+    for n in ast.walk(m.node):
+        if isinstance(n, (ast.FunctionDef, ast.Lambda)) and n is not m.node and len(n.args.args) == 1:
+            applied = any(isinstance(c, ast.Call) and ((isinstance(c.func, ast.Name) and isinstance(n, ast.FunctionDef) and c.func.id == n.name))
+                          and len(c.args) == 1 and isinstance(c.args[0], ast.Name) and c.args[0].id in elems for c in ast.walk(m.node))
+            if applied or isinstance(n, ast.Lambda):
+                elems.add(n.args.args[0].arg)
+    eq = any(isinstance(c, ast.Compare) and len(c.ops) == 1 and isinstance(c.ops[0], ast.Eq) and inp in (ast.unparse(c.left), ast.unparse(c.comparators[0]))
+             and ({ast.unparse(c.left), ast.unparse(c.comparators[0])} - {inp}) <= elems and ast.unparse(c.left) != ast.unparse(c.comparators[0])
+             for c in ast.walk(m.node))
+    mt = any(isinstance(c, ast.Call) and isinstance(c.func, ast.Attribute) and c.func.attr in ("match", "fullmatch") and ast.unparse(c.func.value) in elems
+             and [ast.unparse(a) for a in c.args] == [inp] for c in ast.walk(m.node))
+    ok = bool(elems) and eq and mt
     ctx.ob(R, m.module.rel, f"{m.short} :: strings compare for equality, patterns with match()", ok, "", m.node.lineno)
 
 
@@ -164,6 +341,89 @@ def rule_pure(ctx, px):
     params = [a.arg for a in f.node.args.args]
     ctx.ob(R, f.module.rel, f"{f.short} :: memo key = {params}", params == ["self", "token", "token_type"], "cached" if ok else "not cached", f.node.lineno)
 
+
+
+_BUILTINS_MODULE_METADATA = {"_", "__doc__", "__loader__", "__name__", "__package__", "__spec__"}
+
+
+class _Unfoldable(Exception):
+    pass
+
+
+def _fold(e, env):
+    """constant folding of the reserved-list expression: keyword.kwlist, dir(builtins), list/set algebra, str mapping and
+    comprehensions with foldable filters.  No repository code is executed."""
+    u = ast.unparse(e)
+    if u == "keyword.kwlist":
+        return list(keyword.kwlist)
+    if u == "keyword.softkwlist":
+        return list(getattr(keyword, "softkwlist", []))
+    if u == "dir(builtins)":
+        return sorted(dir(builtins))
+    if isinstance(e, ast.Constant):
+        return e.value
+    if isinstance(e, ast.Name):
+        if e.id in env:
+            return env[e.id]
+        raise _Unfoldable(u)
+    if isinstance(e, (ast.List, ast.Tuple, ast.Set)):
+        out = []
+        for x in e.elts:
+            if isinstance(x, ast.Starred):
+                out.extend(_fold(x.value, env))
+            else:
+                out.append(_fold(x, env))
+        return out
+    if isinstance(e, ast.BinOp) and isinstance(e.op, (ast.Add, ast.BitOr)):
+        return list(_fold(e.left, env)) + list(_fold(e.right, env))
+    if isinstance(e, ast.UnaryOp) and isinstance(e.op, ast.Not):
+        return not _fold(e.operand, env)
+    if isinstance(e, ast.BoolOp):
+        vals = [_fold(v, env) for v in e.values]
+        return all(vals) if isinstance(e.op, ast.And) else any(vals)
+    if isinstance(e, ast.Compare) and len(e.ops) == 1:
+        a, b = _fold(e.left, env), _fold(e.comparators[0], env)
+        op = e.ops[0]
+        if isinstance(op, ast.Eq):
+            return a == b
+        if isinstance(op, ast.NotEq):
+            return a != b
+        if isinstance(op, ast.In):
+            return a in b
+        if isinstance(op, ast.NotIn):
+            return a not in b
+        raise _Unfoldable(u)
+    if isinstance(e, (ast.ListComp, ast.SetComp, ast.GeneratorExp)) and len(e.generators) == 1 and isinstance(e.generators[0].target, ast.Name):
+        g = e.generators[0]
+        out = []
+        for v in _fold(g.iter, env):
+            env2 = dict(env)
+            env2[g.target.id] = v
+            if all(_fold(c, env2) for c in g.ifs):
+                out.append(_fold(e.elt, env2))
+        return out
+    if isinstance(e, ast.Call):
+        fn = e.func
+        if isinstance(fn, ast.Name) and fn.id in ("list", "sorted", "set", "tuple", "frozenset") and len(e.args) == 1:
+            return list(_fold(e.args[0], env))
+        if isinstance(fn, ast.Name) and fn.id == "str" and len(e.args) == 1:
+            return str(_fold(e.args[0], env))
+        if isinstance(fn, ast.Name) and fn.id == "map" and len(e.args) == 2 and ast.unparse(e.args[0]) == "str":
+            return [str(x) for x in _fold(e.args[1], env)]
+        if isinstance(fn, ast.Attribute) and fn.attr == "chain" and ast.unparse(fn.value) == "itertools":
+            return [x for a in e.args for x in _fold(a, env)]
+        if isinstance(fn, ast.Attribute) and fn.attr == "union":
+            return list(_fold(fn.value, env)) + [x for a in e.args for x in _fold(a, env)]
+        if isinstance(fn, ast.Attribute) and fn.attr in ("startswith", "endswith") and len(e.args) == 1:
+            recv, arg = _fold(fn.value, env), _fold(e.args[0], env)
+            if isinstance(recv, str) and isinstance(arg, (str, tuple, list)):
+                arg = tuple(arg) if isinstance(arg, list) else arg
+                return recv.startswith(arg) if fn.attr == "startswith" else recv.endswith(arg)
+        if isinstance(fn, ast.Attribute) and fn.attr in ("isidentifier", "islower", "isupper") and not e.args:
+            recv = _fold(fn.value, env)
+            if isinstance(recv, str):
+                return getattr(recv, fn.attr)()
+    raise _Unfoldable(u)
 
 # ---------------------------------------------------------------------------------------------------------------
 def _class_of_negated_rule(pattern):
@@ -289,6 +549,79 @@ def _prefix_possible(ops, s):
     return rec(ops, 0, 0)
 
 
+def _concat_parts(e):
+    """string-building expression -> list of pieces (constants as repr, others unparsed): f-string, '{}'.format, +"""
+    if isinstance(e, ast.JoinedStr):
+        out = []
+        for v in e.values:
+            if isinstance(v, ast.Constant):
+                out.append(repr(v.value))
+            elif isinstance(v, ast.FormattedValue) and v.conversion == -1 and v.format_spec is None:
+                out.extend(_concat_parts(v.value))
+            else:
+                return [ast.unparse(e)]
+        return out
+    if isinstance(e, ast.BinOp) and isinstance(e.op, ast.Add):
+        return _concat_parts(e.left) + _concat_parts(e.right)
+    if isinstance(e, ast.Call) and isinstance(e.func, ast.Attribute) and e.func.attr == "format" and isinstance(e.func.value, ast.Constant) \
+            and isinstance(e.func.value.value, str) and not e.keywords:
+        segs = e.func.value.value.split("{}")
+        if len(segs) == len(e.args) + 1 and not any("{" in x or "}" in x for x in segs):
+            out = []
+            for i, sg in enumerate(segs):
+                if sg:
+                    out.append(repr(sg))
+                if i < len(e.args):
+                    out.extend(_concat_parts(e.args[i]))
+            return out
+    if isinstance(e, ast.Constant) and isinstance(e.value, str):
+        return [repr(e.value)] if e.value else []
+    return [ast.unparse(e).replace(" ", "")]
+
+
+def _handler_shape(h):
+    """the language failure handler: m = re.match(<^_+([A-Z]?)>, stropped); on a match returns "_" + m.group(1).lower() +
+    stropped[m.end():]; otherwise raises the pending error"""
+    ps = [a.arg for a in h.node.args.args]
+    if len(ps) < 4:
+        return False, "unexpected signature"
+    subj, pend = ps[-3], ps[-1]
+    mvar = None
+    for n in ast.walk(h.node):
+        if isinstance(n, ast.Assign) and isinstance(n.value, ast.Call) and ast.unparse(n.value.func) == "re.match" and len(n.value.args) == 2 \
+                and isinstance(n.value.args[0], ast.Constant) and ast.unparse(n.value.args[1]) == subj and isinstance(n.targets[0], ast.Name):
+            pat = list(sre_parse.parse(n.value.args[0].value))
+            good = (len(pat) == 3 and pat[0][0] is sre_c.AT and pat[1][0] is sre_c.MAX_REPEAT and pat[1][1][0] == 1 and list(pat[1][1][2]) == [(sre_c.LITERAL, ord("_"))]
+                    and pat[2][0] is sre_c.SUBPATTERN and pat[2][1][0] == 1)
+            if good:
+                inner = list(pat[2][1][3])
+                good = len(inner) == 1 and inner[0][0] is sre_c.MAX_REPEAT and inner[0][1][0] == 0 and inner[0][1][1] == 1 and \
+                    list(inner[0][1][2]) == [(sre_c.IN, [(sre_c.RANGE, (ord("A"), ord("Z")))])]
+            if not good:
+                return False, f"pattern {n.value.args[0].value!r} is not ^_+([A-Z]?)"
+            mvar = n.targets[0].id
+    if mvar is None:
+        return False, "no re.match(<pattern>, stropped)"
+    msub = ast.unparse(pyfront.subst_locals(h.node, ast.Name(id=mvar, ctx=ast.Load()))).replace(" ", "")
+    wants = [["'_'", f"{x}.group(1).lower()", f"{subj}[{x}.end():]"] for x in (mvar, msub)]
+    n_ret = n_raise = 0
+    for st, gd in pyfront.walk_guarded(h.node.body):
+        terms = pyfront.guard_terms(gd)
+        matched = (mvar, True) in terms or (f"{mvar} is not None", True) in terms or (f"{mvar} is None", False) in terms
+        if isinstance(st, ast.Return):
+            n_ret += 1
+            parts = _concat_parts(pyfront.subst_locals(h.node, st.value)) if st.value is not None else []
+            if not matched or parts not in wants:
+                return False, f"return of {parts} (match known: {matched})"
+        elif isinstance(st, ast.Raise):
+            n_raise += 1
+            if st.exc is None or ast.unparse(st.exc) != pend or matched:
+                return False, "raise is not the pending error on the no-match path"
+    if not n_ret or not n_raise:
+        return False, "no return / no re-raise"
+    return True, ""
+
+
 def rule_config(ctx, px, root):
     R = "R-C09-CONFIG"
     ctx.rule(
@@ -335,6 +668,8 @@ def rule_config(ctx, px, root):
         for label, val in (("encoding_prefix", enc), ("stropping_prefix", pre), ("stropping_suffix", suf), ("whitespace_encoding_char", ws or "")):
             ok = set(val) <= ALPHABET
             ctx.ob(R, src, f"{lang}: {label} {val!r} lies inside the identifier alphabet", ok, "" if ok else "encoded/stropped tokens contain illegal characters")
+        ok = ws is None or (isinstance(ws, str) and len(ws) > 0)
+        ctx.ob(R, src, f"{lang}: whitespace_encoding_char is absent or non-empty (a whitespace run cannot be encoded to nothing)", ok, "")
         ok = bool(enc) and not enc[0].isdigit()
         ctx.ob(R, src, f"{lang}: encoding_prefix does not start with a digit (encoded leading characters stay legal)", ok,
                "" if ok else f"encoding_prefix {enc!r}: a token whose first character is encoded starts with a digit")
@@ -388,9 +723,8 @@ def rule_config(ctx, px, root):
                     h = f
             if h is None:
                 raise AnalysisError(f"anchor missing: failure handler {hname} of {lang}")
-            hs = ast.unparse(h.node)
-            ok = "re.match('^_+([A-Z]?)', stropped)" in hs and ".lower()" in hs and "raise pending_error" in hs
-            ctx.ob(R, m.rel, f"{h.short} :: returns `_` + lower-cased first letter + rest, or re-raises", ok, "", h.node.lineno)
+            ok, why = _handler_shape(h)
+            ctx.ob(R, m.rel, f"{h.short} :: returns `_` + lower-cased first letter + rest, or re-raises", ok, why, h.node.lineno)
         # (e) keyword tables
         if lang in ("c", "cpp"):
             missing = sorted(set(C11_KEYWORDS + CPP20_KEYWORDS) - set(reserved))
@@ -402,8 +736,17 @@ def rule_config(ctx, px, root):
             for st in cls.node.body:
                 if isinstance(st, (ast.Assign, ast.AnnAssign)) and "PYTHON_RESERVED_IDENTIFIERS" in ast.unparse(st.targets[0] if isinstance(st, ast.Assign) else st.target):
                     expr = ast.unparse(st.value)
-            ok = expr is not None and "keyword.kwlist" in expr and "dir(builtins)" in expr
-            ctx.ob(R, m.rel, "py: PYTHON_RESERVED_IDENTIFIERS = keyword.kwlist + dir(builtins)", ok, str(expr))
+            folded, why = None, ""
+            try:
+                folded = set(_fold(ast.parse(expr, mode="eval").body, {})) if expr is not None else None
+            except _Unfoldable as ex:
+                why = f"cannot fold: {ex}"
+            # required: every keyword and every name of the builtins module except the module object's own metadata
+            required = set(keyword.kwlist) | (set(dir(builtins)) - _BUILTINS_MODULE_METADATA)
+            missing = sorted(required - folded) if folded is not None else []
+            ok = folded is not None and not missing
+            ctx.ob(R, m.rel, "py: PYTHON_RESERVED_IDENTIFIERS covers keyword.kwlist and the names of the builtins module", ok,
+                   f"{len(folded)} names" if ok else (why or f"not reserved any more: {missing[:8]}"))
             ok = kws.get("additional_reserved_identifiers") == "self.PYTHON_RESERVED_IDENTIFIERS"
             ctx.ob(R, m.rel, "py: the encoder receives PYTHON_RESERVED_IDENTIFIERS", ok, str(kws))
     ctx.floor(R + ":languages", n_lang, 3)
